@@ -75,7 +75,7 @@ def build_extra(tier, path):
     lines = []
     seen = set()
     if tier == "quick":
-        n_lex, lo, hi, n_flt = 4000, 6, 7, 250
+        n_lex, lo, hi, n_flt = 2500, 6, 7, 200
     else:
         n_lex, lo, hi, n_flt = 60000, 6, 8, 4000
     tries = 0
@@ -280,7 +280,7 @@ def run(tier):
     # doubles that the specification computed for float literals also take part in the printing round trip
     rng = random.Random(common.seed() * 104729 + 5)
     litbits = sorted({int(v["nc"]["v"]) for v in lexv if v["nc"]["k"] == "float"})
-    cap = 400 if tier == "quick" else 2500
+    cap = 250 if tier == "quick" else 2500
     if len(litbits) > cap:
         litbits = sorted(rng.sample(litbits, cap))
     for b in litbits:
